@@ -51,7 +51,7 @@ JOBS = [
     # ---- comparison runner
     dict(job=('specs.equalizer', 'run_comparison', {}), props=['C08', 'C13', 'C19']),
     dict(job=('specs.equalizer', 'play_and_compare', {}), props=['C08', 'C19']),
-    dict(job=('specs.equalizer', 'within_worker', {'mode': 'dedicated'}), props=['C08', 'C13']),
+    dict(job=('specs.equalizer', 'within_worker', {'mode': 'dedicated'}), props=['C08', 'C13', 'C19']),
     dict(job=('specs.equalizer', 'within_worker', {'mode': 'inprocess'}), props=['C08']),
     dict(job=('specs.equalizer', 'worker_target', {}), props=['C08', 'C13']),
     dict(job=('specs.c01', 'tr_init', {}), props=['C09', 'C17']),
@@ -79,7 +79,7 @@ JOBS = [
     dict(job=('specs.s3', 's3_prefix_iterators', {}), props=['C10', 'C16', 'C14']),
     dict(job=('specs.s3', 'facade_units', {}), props=['C15', 'C07']),
     dict(job=('specs.s3', 'facade_iter_keys', {}), props=['C10', 'C16', 'C15']),
-    dict(job=('specs.s3', 's3_iter_recording_ids', {}), props=['C10', 'C16', 'C15']),
+    dict(job=('specs.s3', 's3_iter_recording_ids', {}), props=['C10', 'C16', 'C15', 'C17']),
     # ---- studio
     dict(job=('specs.studio', 'grouping', {}), props=['C19']),
     dict(job=('specs.studio', 'play_category', {}), props=['C19', 'C10', 'C08']),
